@@ -30,6 +30,10 @@ class State:
             return
         if f is False:
             f = z3.BoolVal(False)
+        if z3.is_and(f):
+            for ch in f.children():
+                self.assume(ch)
+            return
         self.pc.append(f)
 
 
@@ -562,7 +566,12 @@ class Executor:
         if isinstance(op, ast.Mod):
             if not sym:
                 return a % b
-            return z3ify(a) - z3ify(b) * floordiv(a, b)
+            az, bz = z3ify(a), z3ify(b)
+            if az.sort() == z3.IntSort() and bz.sort() == z3.IntSort() and not z3.is_int_value(bz):
+                # symbolic modulus: exact linear form when the path already implies 0 <= a < 2*b (ring cursors)
+                if not self.feasible(st, z3.Not(z3.And(bz > 0, az >= 0, az < 2 * bz))):
+                    return z3.If(az < bz, az, az - bz)
+            return az - bz * floordiv(a, b)
         if isinstance(op, ast.Pow):
             return self.power(a, b)
         if isinstance(op, ast.BitAnd):
@@ -778,6 +787,10 @@ class Executor:
             return out
         if hasattr(it, "comprehend"):
             return it.comprehend(self, st, fr, node, g)
+        if isinstance(it, RangeV) and not g.ifs and it.step == 1:
+            n = z3ify(it.hi) - z3ify(it.lo)
+            n = z3.simplify(z3.If(n > 0, n, 0))
+            it = Seq(n, z3.Lambda([_LK], _LK + z3ify(it.lo)), "int", "range")
         if isinstance(it, Seq) and not g.ifs:
             k = z3.Int(fresh_name("k"))
             saved = dict(st.locals)
@@ -1054,6 +1067,7 @@ class Executor:
 
 
 _MISSING = object()
+_LK = z3.Int("k!range")
 
 
 class RangeV:
